@@ -162,6 +162,27 @@ partial def loop (h : IO.FS.Stream) (out : IO.FS.Stream) (s : State) : IO Unit :
     match parseOp l with
     | none =>
       match l.splitOn " " with
+      | "asw" :: rest =>
+        -- arc-swap integration (`RefCnt for Arc<T>`): an `ArcSwapAny<Arc<T>>` cell is one more owning handle of the
+        -- allocation.  Its operations are compositions of steps of the model (so every theorem about histories applies
+        -- to the expanded history): new = move in (clone + drop of the source), load = read-only, load_full = clone,
+        -- store = release the old value + move the new one in, into_inner = move out (nothing changes).
+        let expansion : Option (List Op) := match rest with
+          | ["new", d, src] => do some [.clone (← d.toNat?) (← src.toNat?), .drop (← src.toNat?)]
+          | ["load", _c] => some []
+          | ["loadFull", d, c] => do some [.clone (← d.toNat?) (← c.toNat?)]
+          | ["store", c, k] => do some [.drop (← c.toNat?), .clone (← c.toNat?) (← k.toNat?), .drop (← k.toNat?)]
+          | ["into", _c] => some []
+          | _ => none
+        match expansion with
+        | none => out.putStrLn "unparsed"; out.flush; loop h out s
+        | some ops =>
+          let r := ops.foldl (fun (acc : State × Bool) o =>
+            if acc.2 then (let (s', o') := step acc.1 o; (s', o'.status == "ok")) else acc) (s, true)
+          if r.2 then
+            out.putStrLn (obsLine s r.1 (ok "")); out.flush; loop h out r.1
+          else
+            out.putStrLn (obsLine s s badOp); out.flush; loop h out s
       | ["cmp", a, b] =>
         -- read-only: not a `step` (Model/Ops.lean, "comparison, hashing and formatting through handles")
         match a.toNat?, b.toNat? with
